@@ -81,7 +81,7 @@ class Env(object):
             self.prog.commands[name] = c
 
         stub("PData", numpy.ma.array([1.0, 2.0]))
-        stub("PFuzzy", numpy.ma.array([0.5, -1.0]), fuzzy=True)
+        stub("PFuzzy", numpy.ma.array([0.5, -1.0, 0.25], mask=[0, 0, 1], hard_mask=True), fuzzy=True)  # (its owner hardened the mask)
         stub("PNum", 5)
         stub("PPath", os.path.join("data", "x.csv"))  # a finished command (belonging to no program) whose result is a relative path
         self.prog.add_command(lib["Src"], "USrc", {"V": 1})
@@ -108,7 +108,8 @@ class Env(object):
 
     def state(self):
         return (
-            tuple((k, id(v), v.is_finished, id(peek(v))) for k, v in self.prog.commands.items()),
+            tuple((k, id(v), v.is_finished, id(peek(v)), array_print(peek(v)) if isinstance(peek(v), numpy.ndarray) else None)
+                  for k, v in self.prog.commands.items()),
             tuple(sorted((k, id(v)) for k, v in self.prog.command_library.items())),
             self.prog.working_dir,
         )
@@ -179,6 +180,14 @@ def make_raw(spec, env, nested=False):
     if t == "type":
         return TYPES[spec["name"]]
     if t == "array":
+        if spec.get("kind") == "hard_mask":
+            return numpy.ma.array([1.0, 2.0, 3.0], mask=[0, 1, 0], hard_mask=True)
+        if spec.get("kind") == "read_only":
+            a = numpy.ma.array([1.0, 2.0], mask=[0, 1])
+            a.data.flags.writeable = False
+            return a
+        if spec.get("kind") == "plain":
+            return numpy.array([[1, 2], [3, 4]])
         return numpy.ma.array([1.0, 2.0])
     if t == "path":
         base = {"abs_existing": os.path.join(env.tmp, "data", "x.csv"), "abs_missing": os.path.join(env.tmp, "data", "missing.csv"),
@@ -347,6 +356,14 @@ def ref_clean(pspec, raw, env):
 
 # ---------------------------------------------------------------------------- comparison helpers
 
+def array_print(a):
+    """Everything a caller can observe about an array: cells, missing cells, types, and the flags that decide how it
+    behaves when it is assigned to later (a hardened mask, read-only data)."""
+    masked = isinstance(a, numpy.ma.MaskedArray)
+    return (type(a).__name__, a.shape, str(a.dtype), numpy.ma.getdata(a).tobytes(), numpy.ma.getmaskarray(a).tobytes(),
+            bool(a.hardmask) if masked else None, repr(a.fill_value) if masked else None, bool(numpy.ma.getdata(a).flags.writeable))
+
+
 def same(a, b):
     from mpilot.arguments import Argument
     from mpilot.commands import Command
@@ -356,8 +373,7 @@ def same(a, b):
     if isinstance(a, Command) or isinstance(b, Command) or isinstance(a, type) or isinstance(b, type):
         return a is b
     if isinstance(a, numpy.ndarray) or isinstance(b, numpy.ndarray):
-        return a is b or (isinstance(a, numpy.ndarray) and isinstance(b, numpy.ndarray) and a.shape == b.shape
-                          and bool((numpy.ma.getdata(a) == numpy.ma.getdata(b)).all()))
+        return isinstance(a, numpy.ndarray) and isinstance(b, numpy.ndarray) and array_print(a) == array_print(b)
     if isinstance(a, bool) or isinstance(b, bool):
         return type(a) is type(b) and a == b
     if isinstance(a, numpy.generic) or isinstance(b, numpy.generic):
@@ -579,7 +595,7 @@ def param_specs():
 
 def matrix_cases(ctx):
     for p in param_specs():
-        for r in RAW_POOL + [{"t": "array"}]:
+        for r in RAW_POOL + [{"t": "array"}, {"t": "array", "kind": "hard_mask"}, {"t": "array", "kind": "read_only"}, {"t": "array", "kind": "plain"}]:
             if r["t"] == "array" and p["c"] not in ("Data", "Parameter"):
                 continue
             if r["t"] == "npnum" and "Number" not in param_kind(p) and p["c"] != "Parameter":
